@@ -12,7 +12,8 @@ import (
 // (jsonpath.peg): every string is given to the real Parse and to jpv-peg, which EXECUTES the
 // grammar regenerated from /repo on this run (Peg.run on Gen.grammar + the action stack machine):
 // acceptance, error type, position, `near`, offending argument, and on success the whole parsed
-// tree must agree. Plus the model-free part of the statement: position is a character offset inside
+// tree must agree. Paths with invalid UTF-8 bytes are included: the parser works on []rune(path) (every
+// invalid byte is one U+FFFD), the model is given that character sequence. Plus the model-free part of the statement: position is a character offset inside
 // the path and `near` is exactly the rest of the path from that character on.
 
 type c17 struct{}
@@ -65,7 +66,7 @@ func (c17) Exec(seed int64, i int, tier string) Record {
 		s, gen = enum[i*stride], "enum"
 	} else {
 		// (deep nesting is left to C02: the Lean PEG interpreter has no memo table and is exponential there)
-		switch r.Weighted([]int{24, 38, 20, 10, 0, 8}) {
+		switch r.Weighted([]int{22, 32, 20, 10, 0, 8, 8}) {
 		case 0:
 			s, _, _ = c02GenValid(r)
 			gen = "valid"
@@ -79,13 +80,23 @@ func (c17) Exec(seed int64, i int, tier string) Record {
 			s, gen = c02GenNest(r), "nest"
 		case 5:
 			s, gen = c02GenNumber(r), "number"
+		case 6:
+			var class string
+			s, class = c17GenBadUTF8(r)
+			gen = "bad-utf8:" + class
 		}
 	}
 	rec := Record{Text: s, Tags: []string{"gen:" + gen}}
 	if !utf8.ValidString(s) {
-		// the model works on Unicode strings; invalid UTF-8 is covered by C02 (totality) only
-		rec.Tags = append(rec.Tags, "input:invalid-utf8(skipped)")
-		return rec
+		// The generated parser works on []rune(path): every invalid byte is the character U+FFFD there.
+		// The model works on Unicode strings, so it is given exactly that character sequence
+		// (SexpString ranges over the string as []rune does). Texts the library cuts out of the path
+		// itself (near=…) keep the raw bytes; they are compared as character sequences as well.
+		rec.Tags = append(rec.Tags, "input:invalid-utf8")
+		if len([]rune(s)) == len(s) {
+			rec.Tags = append(rec.Tags, "input:invalid-utf8,no-multi-byte-character")
+		}
+		rec.Info = map[string]interface{}{"path_go_quoted": strconv.Quote(s), "note": "the path contains invalid UTF-8 bytes (JSON cannot show them: use path_go_quoted)"}
 	}
 	acc := r.Chance(30)
 	cfg := Config(acc, nil)
@@ -121,8 +132,8 @@ func (c17) Exec(seed int64, i int, tier string) Record {
 			rec.Class = "position-range"
 			return rec
 		}
-		if near != string(runes[pos:]) {
-			rec.Viol = fmt.Sprintf("near=%q is not the rest of the path from character %d (%q) [input %q]", near, pos, string(runes[pos:]), s)
+		if rest, _ := c17RuneSuffix(s, pos); near != rest {
+			rec.Viol = fmt.Sprintf("near=%q is not the rest of the path from character %d (%q) [input %q]", near, pos, rest, s)
 			rec.Class = "near"
 			return rec
 		}
@@ -169,5 +180,8 @@ func (c17) Exec(seed int64, i int, tier string) Record {
 	}
 	rec.Q = []LeanQ{{Driver: "peg", Line: "(q parse " + accS + " " + SexpString(s) + ")", Expect: expect,
 		What: "real Parse vs the grammar executed in Lean (parseModel)", Oracle: true, Skip: "(q unmodelled)"}}
+	// three-way (L20): the same question answered with the expressions decompiled from the rule functions of jsonpath.peg.go
+	rec.Q = append(rec.Q, LeanQ{Driver: "peg", Line: "(q goparse " + accS + " " + SexpString(s) + ")", Expect: expect,
+		What: "real Parse vs the decompiled rule functions of jsonpath.peg.go executed in Lean (Gen.goGrammar)", Oracle: true, Skip: "(q unmodelled)"})
 	return rec
 }
